@@ -13,6 +13,15 @@ Proof. vm_compute. reflexivity. Qed.
 Lemma no_discipline_complaints : why_not db_audit = [].
 Proof. vm_compute. reflexivity. Qed.
 
+(* every method of the registry takes the lock at most once on any path: its
+   lookups and updates form one critical section (a registration that looked
+   the slot up in one region and wrote it in another would not be atomic) *)
+Lemma every_db_method_is_one_critical_section : single_sections db_audit = true.
+Proof. vm_compute. reflexivity. Qed.
+
+Lemma no_method_with_several_sections : several_sections db_audit = [].
+Proof. vm_compute. reflexivity. Qed.
+
 Lemma registry_fields_private : registry_fields_used_outside_db_go = [].
 Proof. reflexivity. Qed.
 
